@@ -80,8 +80,8 @@ class VTimer:
 
     def join(self, timeout=None):
         # joining a timer: wait until it is neither armed nor running -> cooperative wait
-        while self.armed or any((not t.done) and t.name == f"timer{self.idx}" for t in self.s.threads):
-            self.s.wait_point()
+        self.s.block_until(lambda: not (self.armed or any((not t.done) and t.name == f"timer{self.idx}"
+                                                          for t in self.s.threads)))
 
     def setDaemon(self, v):
         self.daemon = v
@@ -99,17 +99,14 @@ class VLock:
     def acquire(self, blocking=True, timeout=-1):
         s = self.s
         me = s.cur_tid()
-        while True:
-            if self.owner is None or (self.reentrant and self.owner == me):
-                self.owner = me
-                self.count += 1
-                return True
+        free = lambda: self.owner is None or (self.reentrant and self.owner == me)
+        if not free():
             if not blocking:
                 return False
-            lt = s.cur()
-            lt.blocked_on = self
-            s.wait_point()
-            lt.blocked_on = None
+            s.block_until(free)
+        self.owner = me
+        self.count += 1
+        return True
 
     def release(self):
         self.count -= 1
@@ -151,8 +148,7 @@ class VEvent:
     def wait(self, timeout=None):
         if timeout is not None:
             return self.flag
-        while not self.flag:
-            self.s.wait_point()
+        self.s.block_until(lambda: self.flag)
         return True
 
 
@@ -199,9 +195,16 @@ class Scheduler:
         lt.sem.acquire()
 
     def wait_point(self):
-        """Called by a blocked thread (lock/event/join): give the baton back; the controller will not schedule this
-        thread while it is blocked on a held lock."""
+        """Plain yield (the thread stays enabled)."""
         self._yield(-1)
+
+    def block_until(self, cond):
+        """Blocking wait made visible to the controller: the calling thread is not enabled while cond() is false."""
+        lt = self.cur()
+        while not cond():
+            lt.blocked_on = cond
+            self._yield(-1)
+        lt.blocked_on = None
 
     # -- controller
     def spawn(self, fn, name):
@@ -210,6 +213,8 @@ class Scheduler:
         lt.thread.start()
         return lt
 
+    spawn_runnable = spawn
+
     def _enabled(self):
         en = []
         run = self.running
@@ -217,7 +222,7 @@ class Scheduler:
             if t.done:
                 return False
             b = t.blocked_on
-            if b is not None and isinstance(b, VLock) and b.owner is not None and not (b.reentrant and b.owner == t.tid):
+            if b is not None and not b():
                 return False
             return True
         if run is not None and ok(run):
